@@ -12,6 +12,10 @@
 ASMJIT_BEGIN_NAMESPACE
 
 //! \cond INTERNAL
+#if defined(ASMJIT_VERIF)
+extern "C" ASMJIT_API void (*asmjit_verif_lock_hook)(int kind, const void* lock);
+#endif
+
 //! \addtogroup asmjit_utilities
 //! \{
 
@@ -35,8 +39,15 @@ ASMJIT_INLINE_NODEBUG Lock::Lock() noexcept : _handle(PTHREAD_MUTEX_INITIALIZER)
 ASMJIT_INLINE_NODEBUG Lock::Lock() noexcept { pthread_mutex_init(&_handle, nullptr); }
 #endif
 ASMJIT_INLINE_NODEBUG Lock::~Lock() noexcept { pthread_mutex_destroy(&_handle); }
+#if defined(ASMJIT_VERIF)
+// Verification hook (H3, off unless a harness installs it): called while the lock is held - kind 0 right after
+// the lock was acquired, kind 1 right before it is released.
+ASMJIT_INLINE_NODEBUG void Lock::lock() noexcept { pthread_mutex_lock(&_handle); if (asmjit_verif_lock_hook) { asmjit_verif_lock_hook(0, this); } }
+ASMJIT_INLINE_NODEBUG void Lock::unlock() noexcept { if (asmjit_verif_lock_hook) { asmjit_verif_lock_hook(1, this); } pthread_mutex_unlock(&_handle); }
+#else
 ASMJIT_INLINE_NODEBUG void Lock::lock() noexcept { pthread_mutex_lock(&_handle); }
 ASMJIT_INLINE_NODEBUG void Lock::unlock() noexcept { pthread_mutex_unlock(&_handle); }
+#endif
 
 #else
 
